@@ -8,6 +8,18 @@ SIM = "trusted: simulated disk semantics (DESIGN.md 3.2), the sequential referen
 
 CHECKS = {
  # id: (category, technique, level text, design ref, note)
+ "C04": ("exploration", "runtime monitoring: online ownership-map assertion on every allocation + partition invariant at a snapshot hook + self-identifying page contents",
+         "Every page id returned by Alloc/AllocN in generated histories is checked online against a harness-side ownership map and the hooked allocator snapshot; at every quiescent point the partition {headers, live, data-free, meta-free, meta-in-use} must be pairwise disjoint; every live page carries a self-identifying stamp re-read after every transaction. Exploration over histories/configurations (bounded, unbounded, meta area, overflow area).",
+         "DESIGN.md 4 (C04)", SIM),
+ "C07": ("exploration", "runtime monitoring: before/after snapshot identity at a hook + model differential + reopen identity",
+         "For every aborted transaction (Rollback, Close, failed Commit) in generated histories the hooked allocator/WAL/header snapshot taken before Begin must equal the one after the abort (as page sets), the readable state must equal the model, and a clean reopen must reproduce the state. Exploration over prefix histories x abort bodies x configurations.",
+         "DESIGN.md 4 (C07)", SIM),
+ "C10": ("exploration", "runtime monitoring: snapshot equality across close/reopen + model differential + twin observations",
+         "Generated histories with reopen after ~40% of the transactions and shape generators (multi-page free lists, 255+ page regions, multi-page overwrite maps, files grown past the first mapping); the normalised hook snapshot before Close must equal the one after Open and all contents must equal the model.",
+         "DESIGN.md 4 (C10)", SIM),
+ "C11": ("exploration", "runtime monitoring: conservation equation from an allocation probe + Observer stats vs hook snapshot + max file extent on the simulated disk",
+         "Long generated histories on bounded files that never enable the overflow area; at every quiescent point allocatable(probe)+live+meta+2 == max pages, FileStats from the Observer equal harness truth, no page below the end marker is unowned, and the simulated disk's maximum extent stays within the configured size.",
+         "DESIGN.md 4 (C11)", SIM),
  "C03": ("exploration", "runtime monitoring: model-based differential execution on a simulated disk with controlled writer stalls (+race detector slice)",
          "Real txfile code is driven by PRNG-generated transaction programs on a simulated disk; a sequential page model is compared in a read transaction after every transaction end, on every in-transaction read and after reopen, while a gate stalls the background writer so that several transactions' page writes share one writer batch. Held-on-explored-executions assurance; right level because the property quantifies over histories and writer timings that cannot be enumerated.",
          "DESIGN.md 4 (C03)", SIM),
